@@ -22,7 +22,7 @@ MANIFEST = {
             "sqrt typeof arity to_bool ugt ult ugte ulte any all; corollaries: emission equivalence for closures capturing closures to "
             "any depth with first-order results equal and function results related, re-emission chains related to the original; "
             "PARTIAL: the other arms of builtin_full, NaN / both-quote captured data (C05_all_builtins_rel_full kept as a Prop); the "
-            "original C05_full statement is REFUTED (function equality, finding F52); current-code defects are refuted lemmas.  EMIT correspondence: for generated "
+            "original C05_full statement is REFUTED (function equality, finding F53); current-code defects are refuted lemmas.  EMIT correspondence: for generated "
             "functions x captured value pool the AST the real parser returns for the real emitted text, and the body of the "
             "real reloaded function, equal the model's inlined AST; behaviour original vs reloaded-in-fresh-session vs "
             "re-emitted-and-reloaded (chains of length 3) on the implementation and through the real CLI binary, incl. closures capturing "
@@ -60,7 +60,7 @@ POOL = [
     ("closure", "c0 = \"s\"\ng = z => z + c0\nk = z => g(z) + g(z)"), ("closure", "k = (...r) => r"),
     ("closure", "c0 = [1, 2]\nk = {f: z => c0[z], n: -1}"), ("closure", "c0 = 2\nk = a => b => a + b + c0"),
     # capture depth 3 and more: closures capturing closures capturing closures (directly, through factories,
-    # through a record, with a do-block local), and the F52 shape (two closures differing only in captured values)
+    # through a record, with a do-block local), and the F53 shape (two closures differing only in captured values)
     ("closure3", "c0 = 2\nh = z => z * c0\ng = y => h(y + c0)\nk = w => g(w) + h(w)"),
     ("closure3", "mk = a => b => c => a + b + c\nk = mk(1)(2)"),
     ("closure3", "c0 = [1, 2]\nh = z => c0[z]\ng = {f: y => h(y), d: -1}\nk = v => g.f(v)"),
@@ -108,7 +108,7 @@ def small_bodies():
             ("x, y", "[x, y, k]"), ("x, y?", "[x, y, k]"), ("x, ...y", "[x, y, k]"), ("", "k"), ("...x", "[x, k]"),
             ("k", "k"), ("x", "inputs"), ("x", "[constants.pi, inf, infinity, k]"),
             # results that are functions (called again by the argument form "1)(2"), closures created by the body
-            # that capture the captured closure, and function equality (F52)
+            # that capture the captured closure, and function equality (F53)
             ("x", "y => [k, x, y]"), ("x", "y => z => [k, x, y, z]"), ("x", "do {\n  t = k\n  return (y => [t, y, x])\n}"),
             ("x", "[y => k, k]"), ("x", "{f: y => [k, y], g: k}.f"), ("x", "map([x, 1], y => [k, y])"),
             ("x", "k.p == k.q"), ("x", "[k.t, k.u, k.p(x), k.q(x)]"), ("x", "k.p != x")]
@@ -266,7 +266,7 @@ WITNESS = {
     "F8": ("g = 7\nf = do {\n  g = () => g\n  return g\n}", [""]),
     "F12-F14": ("k = 2\nf = x => -(x + k)", ["1"]),
     "F51": ("k = 5\nf = x => (k into (z => [z, x]))", ["1"]),
-    "F52": ("mk = a => (y => y + a)\nk1 = mk(1)\nk2 = mk(2)\nf = x => k1 == k2", ["0"]),
+    "F53": ("mk = a => (y => y + a)\nk1 = mk(1)\nk2 = mk(2)\nf = x => k1 == k2", ["0"]),
 }
 
 
@@ -298,7 +298,7 @@ EQ_TOKENS = ["==", "!=", "unique", "includes"]
 
 
 def f52_class(prog, val, args):
-    """mirror of the Coq exclusion for F52 (narrower: the theorems exclude every body with == != .== .!=):
+    """mirror of the Coq exclusion for F53 (narrower: the theorems exclude every body with == != .== .!=):
     an equality operator / equality-using built-in occurs in the program AND a function value is around
     to be compared (a captured closure, or an argument that is a function)"""
     if not any(t in prog for t in EQ_TOKENS):
@@ -478,7 +478,7 @@ def main(argv):
         ex1 = excuse(bits, state, "ast1", open_ids)
         cd = capture_depth(d["VAL"])
         stats["capture_depth"][str(cd)] = stats["capture_depth"].get(str(cd), 0) + 1
-        is_f52 = "F52" in open_ids and f52_class(prog, d["VAL"], args)
+        is_f52 = "F53" in open_ids and f52_class(prog, d["VAL"], args)
         # --- (i) correspondence: emitted text parsed by the real parser == model AST
         if a1[want] == "1":
             stats["ast_agree"] += 1
@@ -513,7 +513,7 @@ def main(argv):
             elif ex is not None:
                 stats["law_excused"][ex] = stats["law_excused"].get(ex, 0) + 1
             elif is_f52:
-                stats["law_excused"]["F52"] = stats["law_excused"].get("F52", 0) + 1
+                stats["law_excused"]["F53"] = stats["law_excused"].get("F53", 0) + 1
             else:
                 stats["law_violations"] += 1
                 law_fail.append((prog, a, r, rep))
@@ -584,7 +584,7 @@ def main(argv):
         inproc = all(r[0] == r[1] == r[2] == r[-1] for r in parsed[i]["R"])
         if good:
             chain_ok += 1
-        elif ex is not None or ("F52" in open_ids and f52_class(prog, parsed[i]["VAL"], args)):
+        elif ex is not None or ("F53" in open_ids and f52_class(prog, parsed[i]["VAL"], args)):
             chain_exc += 1
         else:
             res.violation("blots prog1 | blots prog2 | blots prog2: the reloaded function gives different outputs",
@@ -613,7 +613,7 @@ def main(argv):
 
     # --- known findings
     wid = {"F10": ["F10"], "F11": ["F11", "F11b"], "F15": ["F15"], "F50": ["F50"], "F8": ["F8"], "F12-F14": ["F12-F14"],
-           "F51": ["F51"], "F52": ["F52"]}
+           "F51": ["F51"], "F53": ["F53"]}
     for e in c.open_known(PID):
         rep_now = any(reproduces(h, w)[0] for w in wid.get(e["id"], []))
         res.known("%s %s%s" % (e["id"], e["what"], "" if rep_now else " (no longer reproduces)"))
